@@ -553,19 +553,15 @@ def _choose_param_inits(effect, model, covariate, index=None):
 
     lower, upper = _choose_bounds(effect, cov_median, cov_min, cov_max, index)
 
-    if effect == 'exp':
-        if lower > init_default or init_default > upper:
-            init = (upper + lower) / 2
-            if init == 0:
-                init = upper / 5
-        else:
-            init = init_default
-    elif effect == 'pow':
-        init = init_default
-    elif effect == "cat2":
+    if effect == "cat2":
         init = 1.01
     else:
         init = init_default
+    if lower > init or init > upper:
+        # NOTE: The bounds depend on the data, the init must lie between them
+        init = (upper + lower) / 2
+        if init == 0:
+            init = upper / 5
 
     inits['init'] = init
     inits['lower'] = lower
